@@ -53,6 +53,9 @@ var checks = map[string]*check{
 		Parts: []part{
 			{Name: "routing-1id", Kind: "explore", Scen: "grpc_route", Inst: inst("single", "single"), Depths: depths([]int{2}, []int{2, 3}), Budget: budget(2*time.Minute, 10*time.Minute)},
 			{Name: "routing-2id", Kind: "explore", Scen: "grpc_route", Inst: inst("pairs", "pairs-all"), Depths: depths([]int{1}, []int{1, 2}), Budget: budget(3*time.Minute, 25*time.Minute)},
+			// fine-grained preemption (every function entry of go-plugin, and grpc.Dial, is a scheduling point): two ids
+			// dialled at once with one shared option slice
+			{Name: "fine-grained", Kind: "explore", Scen: "grpc_route", Inst: inst("fine", "fine"), Depths: depths([]int{2}, []int{2, 3}), Budget: budget(4*time.Minute, 30*time.Minute)},
 			// explicit ids: the same number outstanding in both directions at once, ids 0 / 2^31 / 2^32-1
 			{Name: "id-values", Kind: "explore", Scen: "grpc_route", Inst: inst("ids", "ids"), Depths: depths([]int{1}, []int{1, 2}), Budget: budget(2*time.Minute, 10*time.Minute)},
 			{Name: "tls-and-address-translation", Kind: "explore", Scen: "grpc_route", Inst: inst("variants", "variants-thorough"), Depths: depths([]int{1}, []int{1, 2}), Budget: budget(3*time.Minute, 15*time.Minute)},
